@@ -423,7 +423,7 @@ Fixpoint mp_implied_at (norm : str -> str) (fuel : nat) (m : mp) : res ty :=
                                    | None => Err OtherError
                                    end
                      end) l;
-        Ok (TObj (fold_left (fun acc kt => kv_insert (norm (fst kt)) (snd kt) acc) (fold_left (fun acc kt => kv_insert (fst kt) (snd kt) acc) kts []) []) [])
+        Ok (TObj (fold_left (fun acc kt => kv_insert (norm (fst kt)) (snd kt) acc) kts []) [])      (* fix: commit 2db367e (keys normalised as read: the last one in the input wins) *)
     end
   end.
 (* the buffer holds exactly one item, else "extra bytes" *)
